@@ -98,6 +98,22 @@ fn main() {
         roundtrip_wellformed(rep, &bytes, "generated");
         if bytes.len() < 400 { rep.sample(|| json!({"kind": "generated well-formed class", "bytes_hex": hex(&bytes)})); }
     });
+    // large u4-counted payloads: attribute bodies are the only lists whose count is 4 bytes wide (unknown attributes at every
+    // level, SourceDebugExtension); sizes around 65535/65536 and far beyond
+    let nlarge = ctx.tier.pick(160, 6_000);
+    run_cases(&ctx, &replay, &mut rep, "large-payload", nlarge, |rng, rep, _| {
+        let small = gen::GenCfg { max_fields: 2, max_methods: 2, max_insns: 10, two_slot_constants: false, ..gen::GenCfg::default() };
+        let mut m = gen::gen_class(rng, &small);
+        let (at, size) = gen::add_large_payload(rng, &mut m);
+        let mut layout = if rng.bool() { emit::Layout::canonical() } else { emit::Layout::random(rng.next_u64()) }; layout.two_slot_fillers = false;
+        let Ok(bytes) = emit::emit(&m, &layout) else { rep.count("emit.skipped"); return; };
+        rep.count(&format!("large.{at}")); rep.count(if size > 65_536 { "large.over_65536" } else if size == 65_536 { "large.exactly_65536" } else { "large.below_65536" });
+        rep.seen("large_payload_sizes", &size.to_string());
+        rep.nontrivial(common::rng::fnv_str(&format!("large {at} {size}")));
+        let before = rep.get("wellformed.byte_exact");
+        roundtrip_wellformed(rep, &bytes, &format!("generated with a {size}-byte payload at {at}"));
+        if size > 65_536 && rep.get("wellformed.byte_exact") > before { rep.count("large.over_65536.byte_exact"); }
+    });
     let corpus = cf::corpus::load(&ctx.verif_dir);
     run_cases(&ctx, &replay, &mut rep, "corpus", corpus.len() as u64, |_, rep, i| {
         let (name, bytes) = &corpus[i as usize];
@@ -136,6 +152,7 @@ fn main() {
         meta.oblige("classes with long/double pool entries were tried", rep.get("wellformed.pool_with_long_double") > 100);
         meta.oblige("at least 25 attribute kinds seen in inputs", rep.seen_n("attribute_kinds") >= 25);
         meta.oblige("raw values obtained", rep.get("raw.values") > 100);
+        meta.oblige("attribute payloads larger than 65536 bytes were read (at every level: class, field, method, Code, SourceDebugExtension)", rep.get("large.over_65536") >= 30 && ["large.class.unknown", "large.class.source_debug_extension", "large.field.unknown", "large.method.unknown", "large.code.unknown"].iter().all(|k| rep.get(k) > 0));
     }
     std::process::exit(finish(&ctx, rep, meta));
 }
